@@ -797,6 +797,21 @@ def raw_dict_cases(spy, rng, count):
     """_morgan on raw dicts: well-formed random graphs with few initial colours, and malformed ones (missing keys, extra
     keys, empty, asymmetric adjacency, huge / negative labels)"""
     out = []
+    # directed family for the rarely taken `elif stab: stab = 0` branch: an atom without adjacency row vanishes in round 1 while a
+    # class splits (count unchanged -> stab = 1), the next round splits again (count changes while stab is set)
+    for L in range(5, 13):
+        for ghosts in (1, 2):
+            atoms = {i: 1 for i in range(1, L + 1)}
+            for k in range(ghosts):
+                atoms[90 + k] = 2 + k
+            bonds = {i: {} for i in range(1, L + 1)}
+            for i in range(1, L):
+                bonds[i][i + 1] = 1
+                bonds[i + 1][i] = 1
+            if ghosts == 2:   # a ring closure with a tail instead of the bare path
+                bonds[1][L - 2] = bonds[L - 2][1] = 2
+            res, labels, _ = spy.call(atoms, bonds)
+            out.append((f'mg_ok {zmap(atoms)} {adj_term(bonds)} ({labels}) ({res})', ('raw', 'stall-then-split', atoms, bonds, res)))
     for i in range(count):
         n = rng.randint(0, 8)
         keys = rng.sample(range(-3, 40), n)
